@@ -1,7 +1,8 @@
 ---------------------------- MODULE CompleteTrace ----------------------------
 (* C02, writer half, as a monitor: every conversion returns control with a rendering; the process is not     *)
-(* ended from inside the library; no "unknown token", "parser failed" or "syntax error" escape is taken.     *)
-EXTENDS Integers, Sequences, TLC, Json, IOUtils
+(* ended from inside the library; no "unknown token", "parser failed" or "syntax error" escape is taken;     *)
+(* and of a document made of LineSpell lines every word-bearing line is still there to read (LineSpell).    *)
+EXTENDS LineSpell, TLC, Json, IOUtils
 Tr == ndJsonDeserialize(IOEnv.TRACE)
 VARIABLES l, converted
 tvars == <<l, converted>>
@@ -14,6 +15,7 @@ TNext ==
        [] r.e = "conv"  -> /\ ~r.null                                   \* a rendering was returned
                            /\ \A i \in 1 .. Len(r.diag) : r.diag[i] \notin Escapes
                            /\ (r.nonblank => r.len > 1)                 \* a document that starts with a rendered block does not render to nothing
+                           /\ (r.seq # <<>> => Complete(r.seq, r.cnt, r.carries))   \* no line of a generated document is missing from its rendering (LineSpell)
                            /\ converted' = converted + 1
        [] OTHER -> FALSE                                                \* "exit", "aborted", "timeout": control did not come back
 TraceAccepted == TLCGet("stats").diameter = Len(Tr) + 1
